@@ -242,6 +242,26 @@ def _check(case, switch):
         require(_eq(rows[j], exp), "bm:row",
                 lambda: f"{ctx}: row {j} = {np.asarray(rows[j]).tolist()} but metric of sample {j} = {exp.tolist()}")
 
+    # --- 1b. a sampler that owns one scratch object and refills its score arrays on every draw (every call
+    # hands back the same object, holding different scores)
+    if not d["groups"]:
+        scratch = _build(d, shift=0.0)
+        base_p, base_n = scratch.pos.copy(), scratch.neg.copy()
+        drawn = []
+
+        def refilling(source):
+            drawn.append(1)
+            scratch.pos = base_p + float(len(drawn))
+            scratch.neg = base_n + float(len(drawn))
+            return scratch
+
+        rows2 = o.bootstrap_metric(metric, config=BootstrapConfig(nb_samples=nb, sampling_method=refilling), **kw)
+        for j in range(nb):
+            exp = ref(_build(d, shift=float(j + 1)))
+            require(_eq(rows2[j], exp), "bm:row",
+                    lambda: f"{ctx}: sampler refilling one scratch object: row {j} = {np.asarray(rows2[j]).tolist()} but "
+                            f"metric of sample {j} = {exp.tolist()}")
+
     # --- 2. built-in sampler: seeded replay by hand
     method, strat = case["builtin"]
     smoothing = method.endswith("+smoothing")
